@@ -156,6 +156,13 @@ func (g *gen) refreshWithoutGrant(emit func(string, M) M) {
 	if sub == "none" || sub == "" {
 		return
 	}
+	// a client that IS registered for the refresh grant (and for token exchange) obtains a refresh token by token exchange and redeems it:
+	// fine while the provider enables the refresh grant - refused (unsupported_grant_type) while it does not, whatever else is enabled
+	if out := emit("TokenExchange", M{"caller": "cw", "cred": g.rightCred("cw"), "subj": atRef(sub), "actor": noActor, "requested": "refresh", "scopes": []string{"openid"}}); true {
+		if _, rt, _ := lastNames(out); rt != "none" && rt != "" {
+			emit("Refresh", M{"caller": "cw", "cred": g.rightCred("cw"), "rt": rt, "scopes": []string{}})
+		}
+	}
 	for _, inQuery := range []bool{false, true} {
 		out := emit("TokenExchange", M{"caller": "cs", "cred": g.rightCred("cs"), "subj": atRef(sub), "actor": noActor, "requested": "refresh", "scopes": []string{"openid"}})
 		_, rt, _ := lastNames(out)
